@@ -141,11 +141,243 @@ def run_alloc_null(res, ast):
     return nsites
 
 
+# --------------------------------------------------------------------------- bounds facts (flow analysis)
+
+class BoundsFlow:
+    """Forward flow analysis of one Memory method: which facts about the tape hold where a raw access
+    `*self.buffer.add(X)` is made.  Tracked: immutable `let` definitions with pure initialisers (resolved into the
+    expressions that use them), the facts established by enclosing conditions (`a < b` in the then-branch, its
+    negation in the else-branch and after a diverging then-branch), and `accessible(o)` established by a call
+    `self.make_accessible(o, o + 1)`.  A statement that may change the tape (`&mut self` call, assignment to a
+    field of self) kills every fact and every definition that reads self."""
+
+    MUT_OK = ("make_accessible",)
+
+    def __init__(self, ast, fn, mut_methods):
+        import pm
+        self.pm = pm
+        self.ast, self.fn = ast, fn
+        self.mut_methods = mut_methods
+        self.params = [p_["pat"]["name"] for p_ in fn["sig"]["inputs"] if p_["t"] == "Arg" and p_["pat"]["t"] == "PIdent"]
+        self.sites = []      # (node, ok, why)
+
+    # -- expressions
+    def resolve(self, e, defs):
+        e = strip_paren(e)
+        if not isinstance(e, dict):
+            return e
+        n = self.pm._ident(e)
+        if n is not None and n in defs:
+            return defs[n]
+        out = {}
+        for k, v in e.items():
+            if k in ("sp",):
+                out[k] = v
+            elif isinstance(v, dict):
+                out[k] = self.resolve(v, defs) if "t" in v else v
+            elif isinstance(v, list):
+                out[k] = [self.resolve(x, defs) if isinstance(x, dict) and "t" in x else x for x in v]
+            else:
+                out[k] = v
+        return out
+
+    def same(self, a, b):
+        return self.pm._eq(a, b)
+
+    def reads_self(self, e):
+        return any(n.get("t") == "PathExpr" and n["path"]["name"] == "self" for n in walk(e))
+
+    def atom(self, c, defs):
+        """condition -> list of (positive?, lhs, rhs) facts `lhs < rhs` it is equivalent to, or None"""
+        c = strip_paren(c)
+        if c["t"] == "Unary" and c["op"] == "!":
+            a = self.atom(c["expr"], defs)
+            if a and len(a) == 1:
+                return [(not a[0][0], a[0][1], a[0][2])]
+            return None
+        if c["t"] == "Binary" and c["op"] in ("<", ">", "<=", ">="):
+            l, r = self.resolve(c["left"], defs), self.resolve(c["right"], defs)
+            return {"<": [(True, l, r)], ">": [(True, r, l)], ">=": [(False, l, r)], "<=": [(False, r, l)]}[c["op"]]
+        return None
+
+    def cond_facts(self, c, defs, truth):
+        """facts known when condition c evaluates to `truth`"""
+        c = strip_paren(c)
+        if c["t"] == "Binary" and c["op"] == "&&":
+            if truth:
+                return self.cond_facts(c["left"], defs, True) + self.cond_facts(c["right"], defs, True)
+            return []
+        if c["t"] == "Binary" and c["op"] == "||":
+            if not truth:
+                return self.cond_facts(c["left"], defs, False) + self.cond_facts(c["right"], defs, False)
+            return []
+        a = self.atom(c, defs)
+        if a is None:
+            return []
+        return [(pos == truth, l, r) for pos, l, r in a]
+
+    # -- statements
+    def diverges(self, blk):
+        st = blk["stmts"]
+        if not st:
+            return False
+        e = st[-1].get("expr") if st[-1]["t"] == "ExprStmt" else None
+        return isinstance(e, dict) and e.get("t") in ("Return", "Break", "Continue") or \
+            (isinstance(e, dict) and e.get("t") == "MacroExpr" and e["mac"]["name"] in ("panic", "unreachable"))
+
+    def kill(self, defs, facts):
+        for k in [k for k, v in defs.items() if self.reads_self(v)]:
+            del defs[k]
+        facts[:] = [f for f in facts if f[0] == "acc-keep"]
+
+    def effects(self, e, defs, facts):
+        """apply the effects of evaluating expression e (calls that change the tape, accesses)"""
+        # accesses first (they are evaluated in the state before any mutation in the same statement only when no
+        # mutation occurs in that statement; a statement with both is rejected)
+        muts = []
+        for n in walk(e):
+            if n.get("t") == "MethodCall" and self.pm._ident(strip_paren(n["receiver"])) == "self" and n["method"] in self.mut_methods:
+                muts.append(n)
+            if n.get("t") == "Assign" and self.reads_self(n["left"]) and strip_paren(n["left"])["t"] != "Unary":
+                muts.append(n)
+            if n.get("t") == "Call" and any(self.pm._ident(strip_paren(a)) == "self" for a in n["args"]):
+                muts.append(n)
+        derefs = [u for u in walk_t(e, "Unary") if u["op"] == "*" and self.is_raw(u["expr"])]
+        if muts and derefs:
+            for d in derefs:
+                self.sites.append((d, False, "the access shares a statement with a change of the tape"))
+            self.kill(defs, facts)
+            return
+        for d in derefs:
+            self.judge(d, defs, facts)
+        for m in muts:
+            self.kill(defs, facts)
+            if m.get("t") == "MethodCall" and m["method"] == "make_accessible" and len(m["args"]) == 2:
+                o = self.resolve(m["args"][0], defs)
+                e1 = self.resolve(m["args"][1], defs)
+                one = {"t": "Binary", "op": "+", "left": o, "right": {"t": "Lit", "kind": "int", "digits": "1", "suffix": "", "sp": [0, 0, 0, 0]}, "sp": [0, 0, 0, 0]}
+                if self.same(e1, one) and not self.reads_self(o):
+                    facts.append(("acc", o))
+
+    def is_raw(self, e):
+        e = strip_paren(e)
+        return e["t"] == "MethodCall" and e["method"] in ("add", "offset", "wrapping_add", "wrapping_offset", "sub") and \
+            strip_paren(e["receiver"])["t"] == "Field" and strip_paren(e["receiver"])["member"] == "buffer"
+
+    def judge(self, d, defs, facts):
+        e = strip_paren(d["expr"])
+        if e["method"] != "add" or len(e["args"]) != 1:
+            self.sites.append((d, False, f"raw access through .{e['method']}(): only `self.buffer.add(i)` is analysed"))
+            return
+        x = self.resolve(e["args"][0], defs)
+        # index must be offset (+) parameter, computed with wrapping_add_signed from the current self.offset
+        b = self.pm.match_expr(x, "self.offset.wrapping_add_signed(__v_o)")
+        if not b or b["__v_o"] not in self.params:
+            self.sites.append((d, False, "the index is not `self.offset.wrapping_add_signed(<offset parameter>)` computed from the current offset"))
+            return
+        size = self.pm._parse("expr", "self.size")
+        for f in facts:
+            if f[0] is True and self.same(f[1], x) and self.same(f[2], size):
+                self.sites.append((d, True, "inside the strict unsigned test against self.size"))
+                return
+            if f[0] == "acc" and self.pm._ident(f[1]) == b["__v_o"]:
+                self.sites.append((d, True, "after make_accessible(o, o + 1), index recomputed from the same o"))
+                return
+        self.sites.append((d, False, "no dominating `index < self.size` test (strict, same index) and no preceding make_accessible(o, o + 1)"))
+
+    def block(self, blk, defs, facts):
+        defs = dict(defs)
+        facts = list(facts)
+        for st in blk["stmts"]:
+            self.stmt(st, defs, facts)
+        return defs, facts
+
+    def stmt(self, st, defs, facts):
+        t = st["t"]
+        if t == "Local":
+            if st.get("init") is not None:
+                self.expr(st["init"], defs, facts)
+            if st["pat"]["t"] == "PIdent":
+                nm = st["pat"]["name"]
+                defs.pop(nm, None)
+                if not st["pat"]["mut"] and not st["pat"]["by_ref"] and st.get("init") is not None and self.pm._pure(st["init"]):
+                    defs[nm] = self.resolve(st["init"], defs)
+            else:
+                for n in walk(st["pat"]):
+                    if n.get("t") == "PIdent":
+                        defs.pop(n["name"], None)
+            return
+        if t == "ExprStmt":
+            self.expr(st["expr"], defs, facts)
+            return
+        if t in ("Item", "ItemStmt", "Macro", "MacroStmt"):
+            return
+        self.expr(st, defs, facts)
+
+    def expr(self, e, defs, facts):
+        e = strip_paren(e)
+        t = e.get("t")
+        if t == "If":
+            c = e["cond"]
+            if strip_paren(c)["t"] == "Let":
+                self.effects(strip_paren(c)["expr"], defs, facts)
+                tf, ff = [], []
+            else:
+                self.effects(c, defs, facts)
+                tf, ff = self.cond_facts(c, defs, True), self.cond_facts(c, defs, False)
+            d1, f1 = self.block(e["then"], defs, facts + tf)
+            els = e.get("else")
+            if els is not None:
+                eb = els["block"] if els.get("t") == "BlockExpr" else {"t": "Block", "stmts": [{"t": "ExprStmt", "expr": els, "semi": False, "sp": els["sp"]}], "sp": els["sp"]}
+                d2, f2 = self.block(eb, defs, facts + ff)
+                ediv = self.diverges(eb)
+            else:
+                d2, f2, ediv = defs, facts + ff, False
+            tdiv = self.diverges(e["then"])
+            # join: keep what survives both non-diverging branches
+            outs = [(d, f) for (d, f, dv) in ((d1, f1, tdiv), (d2, f2, ediv)) if not dv]
+            if len(outs) == 1:
+                nd, nf = outs[0]
+                # scoped definitions of the branch do not escape; facts about outer definitions do
+                nd = {k: v for k, v in nd.items() if k in defs and v is defs[k]}
+            elif len(outs) == 2:
+                nd = {k: v for k, v in defs.items() if k in outs[0][0] and k in outs[1][0] and outs[0][0][k] is v and outs[1][0][k] is v}
+                nf = [f for f in outs[0][1] if any(f is g for g in outs[1][1])]
+            else:
+                nd, nf = {}, []
+            defs.clear(); defs.update(nd)
+            facts[:] = nf
+            return
+        if t == "BlockExpr" or t == "Unsafe":
+            nd, nf = self.block(e["block"], defs, facts)
+            keepd = {k: v for k, v in nd.items() if k in defs and v is defs[k]}
+            defs.clear(); defs.update(keepd)
+            facts[:] = nf
+            return
+        if t in ("While", "ForLoop", "Loop", "Match", "Closure"):
+            # not needed by the tape accessors; anything inside is judged with no facts
+            for d in [u for u in walk_t(e, "Unary") if u["op"] == "*" and self.is_raw(u["expr"])]:
+                self.sites.append((d, False, f"raw access inside a {t} is not analysed"))
+            self.kill(defs, facts)
+            return
+        if t == "Return" and e.get("expr") is not None:
+            self.expr(e["expr"], defs, facts)
+            return
+        # does the expression contain nested control flow with accesses? (e.g. `let v = if .. {..}`)
+        for k in ("If", "BlockExpr", "Unsafe"):
+            inner = [n for n in walk(e) if n is not e and n.get("t") == k]
+            if inner:
+                # evaluate the outermost nested construct structurally, the rest as plain effects
+                self.expr(inner[0], defs, facts)
+                return
+        self.effects(e, defs, facts)
+
+
 def run_tape_rules(res, ast, rules=("BOUNDS-GUARD", "READ-NOALLOC", "TAPE-PAIR")):
     res.files.add(RUNTIME)
     try:
         fns = {f["name"]: f["node"] for f in ast.find_fns(RUNTIME) if "Memory" in f["container"] and "mod tests" not in f["container"]}
-        for n in ("read", "write", "write_out_of_bounds", "check", "check_ptr", "make_accessible", "mov", "set_current_ptr", "current_ptr", "new", "drop"):
+        for n in ("read", "write", "check", "check_ptr", "make_accessible", "mov", "set_current_ptr", "current_ptr", "new", "drop"):
             if n not in fns:
                 raise Missing(f"Memory::{n}")
     except Missing as m:
@@ -157,54 +389,57 @@ def run_tape_rules(res, ast, rules=("BOUNDS-GUARD", "READ-NOALLOC", "TAPE-PAIR")
         res.rule("BOUNDS-GUARD", "every `*self.buffer.add(i)` is inside `if i < self.size` (strict, unsigned, same i computed with "
                  "wrapping_add_signed) or follows make_accessible(o, o + 1) with i recomputed from the same o; check/check_ptr use "
                  "the same strict comparison (check_ptr on the element index, i.e. after dividing by the cell size)", floor=5, what="accesses and tests")
-        for name in ("read", "write"):
-            fn = fns[name]
-            w = where(RUNTIME, fn, f"Memory::{name}")
-            derefs = [u for u in walk_t(fn["body"], "Unary") if u["op"] == "*" and T(ast, RUNTIME, u["expr"]).startswith("self.buffer.add(")]
-            lets = {l["pat"]["name"]: T(ast, RUNTIME, l["init"]) for l in walk_t(fn["body"], "Local") if l["pat"]["t"] == "PIdent" and l["init"] is not None}
-            par = parents(fn)
-            okall = bool(derefs)
-            why = []
-            pn0 = [p["pat"]["name"] for p in fn["sig"]["inputs"] if p["t"] == "Arg"][0]
-            for d in derefs:
-                iv = T(ast, RUNTIME, d["expr"])[len("self.buffer.add("):-1]
-                if lets.get(iv) != f"self.offset.wrapping_add_signed({pn0})":
-                    okall = False
-                    why.append(f"index `{iv}` is not `self.offset.wrapping_add_signed({pn0})`")
-                guarded = False
-                cur = d
-                while id(cur) in par:
-                    pn, k = par[id(cur)]
-                    if pn["t"] == "If" and k == "then" and T(ast, RUNTIME, pn["cond"]) == f"{iv}<self.size":
-                        guarded = True
-                    cur = pn
-                if not guarded:
-                    okall = False
-                    why.append(f"`*self.buffer.add({iv})` is not inside `if {iv} < self.size`")
-            res.check(okall, "BOUNDS-GUARD", f"{RUNTIME}|Memory::{name}|deref", w, f"Memory::{name}: " + "; ".join(why or ["no raw access found"]))
         import pm
-        fn = fns["write_out_of_bounds"]
-        ok = pm.match_stmts(fn["body"]["stmts"], "self.make_accessible(__v_o, __v_o + 1); let __v_i = self.offset.wrapping_add_signed(__v_o); unsafe { *self.buffer.add(__v_i) = __v_val };") is not None
-        res.check(ok, "BOUNDS-GUARD", f"{RUNTIME}|Memory::write_out_of_bounds", where(RUNTIME, fn, "write_out_of_bounds"),
-                  "the slow path must call make_accessible(offset, offset + 1) and recompute the index from the same offset before the raw store")
+        mut_methods = {n for n, f_ in fns.items() if any(p_["t"] == "Receiver" and p_["mut"] for p_ in f_["sig"]["inputs"])}
+        access_fns = []
+        for name, fn in fns.items():
+            if not fn.get("body"):
+                continue
+            raw = [u for u in walk_t(fn["body"], "Unary") if u["op"] == "*" and ("self.buffer" in T(ast, RUNTIME, u["expr"]) or strip_paren(u["expr"])["t"] in ("MethodCall", "Call", "Cast"))]
+            raw += [m for m in walk_t(fn["body"], "MethodCall") if m["method"] in ("read", "write", "read_volatile", "write_volatile", "read_unaligned", "write_unaligned", "replace", "swap")
+                    and "self.buffer" in T(ast, RUNTIME, m["receiver"])]
+            if not raw:
+                continue
+            access_fns.append(name)
+            w = where(RUNTIME, fn, f"Memory::{name}")
+            bf = BoundsFlow(ast, fn, mut_methods)
+            try:
+                bf.block(fn["body"], {}, [])
+                judged = {id(d) for d, _, _ in bf.sites}
+                why = [y for d, okd_, y in bf.sites if not okd_]
+                why += ["a raw access of the buffer is not of the analysed form `*self.buffer.add(i)`" for r_ in raw if id(r_) not in judged]
+                okall = bool(bf.sites) and not why
+            except (KeyError, TypeError, IndexError) as ex:
+                okall, why = False, [f"could not be analysed (fail closed): {type(ex).__name__} {ex}"]
+            res.check(okall, "BOUNDS-GUARD", f"{RUNTIME}|Memory::{name}|deref", w, f"Memory::{name}: " + "; ".join(sorted(set(why)) or ["no raw access found"]))
+        for name in ("read", "write"):
+            res.check(name in access_fns or any(True for m in walk_t(fns[name]["body"], "MethodCall") if m["method"] in access_fns), "BOUNDS-GUARD",
+                      f"{RUNTIME}|Memory::{name}|present", where(RUNTIME, fns[name], f"Memory::{name}"), f"Memory::{name} no longer accesses the tape")
         okc = pm.match_stmts(fns["check"]["body"]["stmts"], "self.offset.wrapping_add_signed(__v_o) < self.size") is not None
         res.check(okc, "BOUNDS-GUARD", f"{RUNTIME}|Memory::check", where(RUNTIME, fns["check"], "check"),
                   f"check must be `self.offset.wrapping_add_signed(offset) < self.size` (strict); found `{T(ast, RUNTIME, fns['check']['body'])}`")
         okp = pm.match_stmts(fns["check_ptr"]["body"]["stmts"], "((__v_p as usize).wrapping_sub(self.buffer as usize) / mem::size_of::<C>()) < self.size") is not None
         res.check(okp, "BOUNDS-GUARD", f"{RUNTIME}|Memory::check_ptr", where(RUNTIME, fns["check_ptr"], "check_ptr"),
                   f"check_ptr must compare the element index ((ptr - buffer) / size_of::<C>()) strictly with size; found `{T(ast, RUNTIME, fns['check_ptr']['body'])}`")
-        # no other raw deref of the buffer anywhere in runtime.rs
-        alld = []
-        for n, fn in fns.items():
-            for u in walk_t(fn.get("body") or {}, "Unary"):
-                if u["op"] == "*" and "self.buffer" in T(ast, RUNTIME, u["expr"]):
-                    alld.append(n)
-        res.check(sorted(set(alld)) == ["read", "write", "write_out_of_bounds"], "BOUNDS-GUARD", f"{RUNTIME}|raw-access-sites", RUNTIME,
-                  f"raw tape accesses occur in {sorted(set(alld))}; only read, write and write_out_of_bounds are analysed")
     if "READ-NOALLOC" in rules:
         res.rule("READ-NOALLOC", "Memory::read/check/check_ptr/current_ptr/mov/set_current_ptr call nothing that allocates or grows "
                  "(no make_accessible, write, alloc*, Vec/Box), and read takes &self", floor=6, what="functions")
-        banned = ("make_accessible", "write", "write_out_of_bounds", "alloc", "alloc_zeroed", "realloc", "push", "reserve", "with_capacity", "to_vec", "collect", "clone")
+        std_alloc = ("alloc", "alloc_zeroed", "realloc", "push", "reserve", "with_capacity", "to_vec", "collect", "clone")
+
+        def callees(fn_):
+            return [m["method"] for m in walk_t(fn_.get("body") or {}, "MethodCall")] + \
+                [(path_name(c["func"]) or "?").split("::")[-1] for c in walk_t(fn_.get("body") or {}, "Call")]
+        growing = {n_ for n_, f_ in fns.items() if any(c in std_alloc for c in callees(f_))}
+        changed = True
+        while changed:
+            changed = False
+            for n_, f_ in fns.items():
+                if n_ not in growing and any(c in growing for c in callees(f_)):
+                    growing.add(n_)
+                    changed = True
+        res.check("make_accessible" in growing and "write" in growing and "read" not in growing, "READ-NOALLOC", f"{RUNTIME}|growing-set", RUNTIME,
+                  f"the methods that can allocate are {sorted(growing)}; expected make_accessible and write (through the slow path) and never read")
+        banned = tuple(growing) + std_alloc
         for name in ("read", "check", "check_ptr", "current_ptr", "mov", "set_current_ptr"):
             fn = fns[name]
             called = [m["method"] for m in walk_t(fn["body"], "MethodCall")] + [(path_name(c["func"]) or "?").split("::")[-1] for c in walk_t(fn["body"], "Call")]
